@@ -263,6 +263,7 @@ func resolvePH(p *load.Program, r *kit.Report, rule string, ph *ssa.Function) *p
 				"lookup is %s and does not search every branch in repo.branches: headers held by other branches are missed (a known header is treated as new / a known parent as unknown)", kit.ShortID(kit.CallID(lk.call)))
 			return nil
 		}
+		r.OK(rule, "ProcessHeader/"+lk.name+"-scope", posOf(p, lk.call), "repo.branches.Find: every branch is searched, owners before their children")
 	}
 	nilTest := func(call *ssa.Call, wantNonNil bool) []kit.Edge {
 		gs := kit.FindGuards(ph, func(c ssa.Value) (bool, bool) {
